@@ -371,6 +371,64 @@ fn check_arity_sweep(ctx: &mut Ctx) {
     ctx.flush_failures();
 }
 
+/// Map keys that serialize to the empty list or to other composite shapes,
+/// through both SerializeMap routes.
+#[derive(Debug, Clone)]
+struct OddKeys {
+    keys: Vec<u8>,
+    two_step: bool,
+}
+impl serde::Serialize for OddKeys {
+    fn serialize<S: serde::Serializer>(&self, ser: S) -> Result<S::Ok, S::Error> {
+        use serde::ser::SerializeMap;
+        let mut m = ser.serialize_map(Some(self.keys.len()))?;
+        macro_rules! put {
+            ($k:expr, $v:expr) => {
+                if self.two_step {
+                    m.serialize_key($k)?;
+                    m.serialize_value($v)?;
+                } else {
+                    m.serialize_entry($k, $v)?;
+                }
+            };
+        }
+        for (i, k) in self.keys.iter().enumerate() {
+            let v = i as u8;
+            match k % 10 {
+                0 => put!(&None::<u8>, &v),
+                1 => put!(&(), &v),
+                2 => put!(&Vec::<u8>::new(), &v),
+                3 => put!(&UnitS, &v),
+                4 => put!(&Some(7u8), &v),
+                5 => put!(&7u8, &v),
+                6 => put!(&(1u8, "x"), &v),
+                7 => put!(&std::marker::PhantomData::<u8>, &v),
+                8 => put!(&Some(None::<u8>), &v),
+                _ => put!("name", &None::<u8>),
+            }
+        }
+        m.end()
+    }
+}
+
+fn check_odd_keys(ctx: &mut Ctx) {
+    let none: AlikeCase = Vec::new();
+    for two_step in [false, true] {
+        for a in 0u8..10 {
+            for b in 0u8..10 {
+                let x = OddKeys { keys: vec![a, b, a], two_step };
+                let r = check_shape_only("OddKeys", &x, &none).map(|_| Eval::new(true, digest_of(&(a, b, two_step))).class("odd-keys")).map_err(|mut f| {
+                    f.case = json!({"odd_keys": [a, b, two_step as u8]});
+                    f.signature = format!("{} route={}", f.signature, if two_step { "serialize_key+serialize_value" } else { "serialize_entry" });
+                    f
+                });
+                ctx.observe("odd-keys", r);
+            }
+        }
+    }
+    ctx.flush_failures();
+}
+
 type AlikeCase = Vec<(u8, u32, i16)>;
 
 fn g_alike() -> BS<AlikeCase> {
@@ -455,6 +513,7 @@ fn run(ctx: &mut Ctx) {
     }
     check_arity_sweep(ctx);
     check_names_sweep(ctx);
+    check_odd_keys(ctx);
     ctx.run_prop("alike-keys", tier.pick(3000, 100_000), g_alike(), check_alike);
     let x = (vec![1u8, 2], (3i8, 4i8));
     ctx.add_sample("shape", json!({"type": "(Vec<u8>,(i8,i8))", "documented": serde_lexpr::to_string(&x).unwrap_or_default(), "flipped node 0": "((1 2) #(3 4)) / #(#(1 2) #(3 4))", "improper": "#((1 2 . 5) #(3 4))"}));
@@ -479,6 +538,15 @@ impl<'a> TypeVisitor for Replay<'a> {
 }
 
 fn replay(_sub: &str, case: &Json) -> Option<CaseResult> {
+    if let Some(a) = case.get("odd_keys") {
+        let t: (u8, u8, u8) = serde_json::from_value(a.clone()).ok()?;
+        let x = OddKeys { keys: vec![t.0, t.1, t.0], two_step: t.2 != 0 };
+        let none: AlikeCase = Vec::new();
+        return Some(check_shape_only("OddKeys", &x, &none).map(|_| Eval::new(true, digest_of(&t)).class("odd-keys")).map_err(|mut f| {
+            f.case = json!({"odd_keys": [t.0, t.1, t.2]});
+            f
+        }));
+    }
     if let Some(a) = case.get("named") {
         let t: (u8, usize) = serde_json::from_value(a.clone()).ok()?;
         let x = Named { kind: t.0, name: ODD_NAMES.get(t.1)? };
